@@ -498,6 +498,9 @@ pub fn gen_opts(r: &mut Rng) -> Opts {
     }
     o.set("prefer_fenced", r.chance(1, 2));
     o.list_style = r.below(3) as u8;
+    if r.chance(1, 3) {
+        o.ol_width = r.range(2, 6);
+    }
     o
 }
 
@@ -1492,6 +1495,14 @@ pub fn run_k(rep: &mut crate::report::Report, seed: u64, n: usize, cl: Clause) {
                     }
                 }
                 Ok((real, wire, kinds)) => {
+                    if let crate::htmlk::Src::Doc(md) = &src {
+                        if let Ok(sc) = catch_unwind(AssertUnwindSafe(|| comrak::markdown_to_commonmark(md, &c))) {
+                            rep.s_evals += 1;
+                            if sc.as_bytes() != real.as_slice() {
+                                rep.fail("string-api-differs", "markdown_to_commonmark", input.clone(), crate::util::diff_window(&real, sc.as_bytes()).replace("real", "parse+format_commonmark").replace("model", "markdown_to_commonmark"));
+                            }
+                        }
+                    }
                     rep.count(&format!("k-gen-{}", name));
                     if kinds.len() > 1 {
                         rep.nontrivial(&(kinds.clone(), o.width, o.ol_width, o.list_style));
